@@ -182,6 +182,13 @@ func (tc *TrafficController) CreateTrafficGate(namespace string, entity *supervi
 
 	name := entity.Spec().Name()
 
+	// Creating over an existing name replaces the entry: the replaced traffic gate
+	// is closed first (it may hold the port the new one is going to listen on).
+	if previousEntity, exists := space.trafficGates.Load(name); exists {
+		previousEntity.(*supervisor.ObjectEntity).CloseWithRecovery()
+		logger.Infof("close replaced traffic gate %s/%s", namespace, name)
+	}
+
 	entity.InitWithRecovery(space)
 	space.trafficGates.Store(name, entity)
 
@@ -416,8 +423,17 @@ func (tc *TrafficController) CreatePipeline(namespace string, entity *supervisor
 
 	name := entity.Spec().Name()
 
+	previousEntity, replaced := space.pipelines.Load(name)
+
 	entity.InitWithRecovery(space)
 	space.pipelines.Store(name, entity)
+
+	// Creating over an existing name replaces the entry: the replaced pipeline is
+	// closed once the new one is in place (lookups never see a closed pipeline).
+	if replaced {
+		previousEntity.(*supervisor.ObjectEntity).CloseWithRecovery()
+		logger.Infof("close replaced pipeline %s/%s", namespace, name)
+	}
 
 	logger.Infof("create pipeline %s/%s", namespace, name)
 
